@@ -35,8 +35,19 @@ type ValGen struct {
 	PathWords []string
 	// NoHuge: no (further) megabyte-sized string in this value
 	NoHuge bool
+	// sparse: this value is a "minimal" one (drawn once per generator, one in six):
+	// optionals mostly unset, one-element arrays, empty maps - [{}], {"a":[]}, ...
+	sparse, sparseDrawn bool
 	// Stats
 	UnsetOptionals, Nulls, NonEmptyCollections, EscapeStrings int
+}
+
+func (g *ValGen) isSparse() bool {
+	if !g.sparseDrawn {
+		g.sparseDrawn = true
+		g.sparse = rapid.IntRange(0, 5).Draw(g.T, g.label("sparse")) == 0
+	}
+	return g.sparse
 }
 
 // HugeStringOneIn: when > 0, one in so many JSON strings is larger than 1 MiB (set by
@@ -224,7 +235,13 @@ func (g *ValGen) Gen(typ reflect.Type, schema *specgen.Schema, depth int) reflec
 	v := reflect.New(typ).Elem()
 	if isOptionStruct(typ) {
 		isNullable := strings.HasPrefix(typ.Name(), "Nullable")
-		if rapid.IntRange(0, 2).Draw(t, g.label("set")) == 0 {
+		unset := false
+		if g.isSparse() {
+			unset = rapid.IntRange(0, 5).Draw(t, g.label("set")) != 0
+		} else {
+			unset = rapid.IntRange(0, 2).Draw(t, g.label("set")) == 0
+		}
+		if unset {
 			if isNullable {
 				g.Nulls++
 			} else {
@@ -297,6 +314,9 @@ func (g *ValGen) Gen(typ reflect.Type, schema *specgen.Schema, depth int) reflec
 		}
 	case reflect.Slice:
 		n := rapid.SampledFrom([]int{-1, 0, 1, 1, 2, 3}).Draw(t, g.label("len"))
+		if g.isSparse() && n > 1 {
+			n = 1
+		}
 		if n < 0 {
 			return v // nil slice
 		}
@@ -314,6 +334,9 @@ func (g *ValGen) Gen(typ reflect.Type, schema *specgen.Schema, depth int) reflec
 		v.Set(s)
 	case reflect.Map:
 		n := rapid.SampledFrom([]int{-1, 0, 1, 2, 3}).Draw(t, g.label("mlen"))
+		if g.isSparse() && n > 0 {
+			n = 0
+		}
 		if n < 0 {
 			return v
 		}
